@@ -28,6 +28,7 @@ func init() {
 			Trusted:     commonTrusted,
 		},
 		Mutants: []Mutant{
+			{Name: "explicit context ignored when it evaluates to an invalid value (agent seed C09/2)", File: "eval.go", Old: "\t\tcontext = st.context\n\t\tdefer func() { st.context = context }()\n\t\tst.context = st.evalPrimaryExpressionGroup(node.Context)\n", New: "\t\tif c := st.evalPrimaryExpressionGroup(node.Context); c.IsValid() {\n\t\t\tcontext = st.context\n\t\t\tdefer func() { st.context = context }()\n\t\t\tst.context = c\n\t\t}\n", Rule: "C09.iso"},
 			{Name: "include resolves against the root", File: "eval.go", Old: "st.set.getSiblingTemplate(templatePath, node.TemplatePath, true)", New: "st.set.getSiblingTemplate(templatePath, \"/\", true)", Rule: "C09.sites"},
 			{Name: "include pops its scope without defer after executing (leaks on early return)", File: "eval.go", Old: "\tst.newScope()\n\tdefer st.releaseScope()\n\n\tst.blocks = t.processedBlocks\n", New: "\tst.newScope()\n\n\tst.blocks = t.processedBlocks\n", Rule: "C09.iso"},
 			{Name: "include's context restore is not deferred and skipped", File: "eval.go", Old: "\t\tcontext = st.context\n\t\tdefer func() { st.context = context }()\n\t\tst.context = st.evalPrimaryExpressionGroup(node.Context)", New: "\t\tcontext = st.context\n\t\t_ = context\n\t\tst.context = st.evalPrimaryExpressionGroup(node.Context)", Rule: "C09.iso"},
@@ -151,6 +152,25 @@ func runC09(c *an.Ctx) {
 			_ = b
 		}
 		c.Check(ctxOK, "C09.iso", key+"/context", target.Pos(), "an explicit context is installed only with a deferred restore", f.Name+" changes the context for the included template without a deferred restore: the includer's '.' is lost")
+		// when an explicit context is given, it *is* the context of the included template — whatever it evaluates to
+		givenOK, sawGiven := true, false
+		for _, snap := range r.callRegs[target] {
+			given := false
+			for _, fact := range strings.Split(snap["__facts"], " ; ") {
+				if (strings.HasSuffix(fact, ".Context == nil") && strings.HasPrefix(fact, "!(")) || fact == "!(nil == node.Context)" ||
+					(strings.HasPrefix(fact, "1 < ") && strings.HasSuffix(fact, ".NumOfArguments()")) {
+					given = true
+				}
+			}
+			if given {
+				sawGiven = true
+				if !strings.HasPrefix(snap["cur:Runtime.context"], "dirty") {
+					givenOK = false
+				}
+			}
+		}
+		c.Check(givenOK && sawGiven, "C09.iso", key+"/context-given", target.Pos(), "when a context argument is given, the root always runs with the context replaced by it",
+			f.Name+" can execute the included template with the caller's context although an explicit context was given (the replacement is conditional on the value)")
 
 		// executed exactly once: explore with a counter
 		runs := map[string][]int{} // kind of exit → run counts
